@@ -25,6 +25,19 @@ def gen_cases(tier, seed):
         for _ in range(25 if q else 600):
             cases.append(" ".join(c03.one(rng, k, B="B*").split()))
     n_sweeps = len(cases)
+    # encodings of 65536 bytes and more (a length that no longer fits 16 bits): 256..258 maximal elements appended;
+    # every buffer below is shorter than the encoding, so each dump must refuse and write nothing
+    n_huge = 0
+    for k in DUMPERS:
+        if k in ("action", "action_noack"):
+            continue
+        for ntags in ((256,) if q else (255, 256, 257, 258, 515)):
+            base = c03.one(rng, k, B="@B@").split()
+            base = [t for t in base if not t.startswith("A:")]
+            big = ["A:%d:%s" % (rng.randrange(256), hx([rng.randrange(256) for _ in range(255)])) for _ in range(ntags)]
+            for bl in ((65535,) if q else (0, 1, 36, 300, 700, 1500, 40000, 65535, 65536)):
+                if bl < ntags * 257:
+                    cases.append(" ".join(base[:-1] + big + ["B%d" % bl])); n_huge += 1
     for _ in range(150 if q else 3000):
         L = rng.choice([0, 1, 2, 5, 32, 255])
         body = hx([rng.randrange(256) for _ in range(L)])
@@ -45,7 +58,7 @@ def gen_cases(tier, seed):
         cases.append("randmac 0 %s" % pfx)
         if pfx != "-":
             cases.append("randmac 1 %s" % pfx)
-    return cases, {"dump_size_sweeps": n_sweeps, "radiotap_selections": n_sel, "total": len(cases)}
+    return cases, {"dump_size_sweeps": n_sweeps, "huge_encodings": n_huge, "radiotap_selections": n_sel, "total": len(cases)}
 
 
 def judge(case, impl, model, spec=None):
